@@ -971,6 +971,8 @@ def analyse(prog, entries, report_param_for=None):
     return rep
 
 
+_STR_METHODS = {"strip", "lstrip", "rstrip", "lower", "upper", "casefold", "title", "zfill", "removeprefix", "removesuffix", "isdigit", "isspace",
+                "isalpha", "isnumeric", "startswith", "endswith", "partition", "rpartition", "encode", "decode", "center", "ljust", "rjust"}
 _SCALAR_FUNCS = {"cos", "sin", "tan", "radians", "deg2rad", "degrees", "rad2deg", "sqrt", "abs", "round", "min", "max", "float", "int", "str", "bool",
                  "tuple", "frozenset", "len", "floor", "ceil", "hypot", "exp", "log", "divmod", "isinstance", "format"}
 
@@ -1020,6 +1022,10 @@ def _pure_memo(prog, eff, q, sc, m, fn):
             return True
         if isinstance(e, ast.Call):
             fname = e.func.attr if isinstance(e.func, ast.Attribute) else e.func.id if isinstance(e.func, ast.Name) else None
+            if isinstance(e.func, ast.Attribute) and fname in _STR_METHODS:
+                # a method that only text (or another immutable value) has, called on a value that is itself immutable here: the arguments
+                # of a memoised function are hashable, so `value.strip()` is text handling, not a table or an array
+                return immutable(e.func.value, depth + 1)
             return fname in _SCALAR_FUNCS and all(immutable(a, depth + 1) for a in e.args) and not e.keywords
         return False
 
